@@ -4,3 +4,5 @@ pub mod api;
 pub mod broadcast;
 pub mod quinn_plaintext;
 pub mod transport;
+#[cfg(feature = "verif")]
+pub mod verif;
